@@ -2,10 +2,13 @@
    up to the end of the line, and what was observed. *)
 From Coq Require Import String Ascii List Bool NArith ZArith.
 Import ListNotations.
-Require Import Verif.Total.FieldPanics Verif.Total.Unescape.
+Require Import Verif.Total.FieldPanics Verif.Total.Unescape Verif.Total.NamePos.
 Local Open Scope string_scope.
 
-Inductive upos := PRet | PCall | PLit.   (* PLit: `x = <digits>` in a view transform (ExitLiteral) *)
+Inductive upos := PRet | PCall | PLit    (* PLit: `x = <digits>` in a view transform (ExitLiteral) *)
+  | PApp | PTarget | PMixin.             (* name positions that take free text: `<text>:` at the top of a file (application name),
+                                            `<text> <- x` (target of a call), `-|> <text>` (mixin) - each stores
+                                            MustUnescapeStrings(app_name.Parts()), one part when the text has no `::` *)
 Inductive uobs :=
   | UModel (payload:list N)    (* a model; the bytes stored in Return.Payload / Call.Endpoint *)
   | UInt (z:Z)                 (* a model; the integer stored in the literal *)
@@ -23,7 +26,12 @@ Fixpoint bytes_eqb (a b:list N) : bool :=
 (* PRet: payload := MustUnescape(strings.Trim(TEXT, " ")).  PCall: the ARGS-mode token is TrimSpace'd by the lexer
    (trimText), then endpoint := MustUnescape(text) *)
 Definition predicted (p:upos) (text:string) : outcome string :=
-  match p with PRet => ret_payload text | PCall => must_unescape (trim is_space text) | PLit => Panic end.
+  match p with
+  | PRet => ret_payload text
+  | PCall | PApp | PTarget | PMixin => must_unescape (trim is_space text)
+  | PLit => Panic
+  end.
+Definition name_pos (p:upos) : bool := match p with PApp | PTarget | PMixin => true | _ => false end.
 
 Definition c01_unescape_ok (c:unescape_case) : bool :=
   let '(p, text, o) := c in
@@ -33,6 +41,16 @@ Definition c01_unescape_ok (c:unescape_case) : bool :=
             | Panic, UPanicRecovered => true
             | _, _ => false
             end
+  | PApp | PTarget | PMixin =>
+      (* exact, three-way: syntax error before the walk / recovered panic of MustUnescape / the stored part
+         (Total/NamePos.v; the text must lie in the model's frame: PRINTABLE characters and blanks) *)
+      in_frame text &&
+      match name_outcome text, o with
+      | NSyntax, USyntax => true
+      | NPanic, UPanicRecovered => true
+      | NOk s, UModel b => bytes_eqb (bytes_of s) b
+      | _, _ => false
+      end
   | _ => match predicted p text, o with
          | Ok s, UModel b => bytes_eqb (bytes_of s) b
          | Panic, UPanicRecovered => true
